@@ -193,6 +193,10 @@ func (r *Run) perform(i int, a Action) error {
 		w.LinkDown(a.Target)
 	case "linkup":
 		return w.LinkUp(a.Target)
+	case "standby":
+		return w.LinkUpStandby(a.Target)
+	case "masterdown":
+		w.LinkDownMaster(a.Target)
 	case "restart":
 		// a restarting device drops its transport
 		w.LinkDown(a.Target)
@@ -205,6 +209,12 @@ func (r *Run) perform(i int, a Action) error {
 			cs[k] = codes.Code(c)
 		}
 		w.Devices[a.Target].InjectFaults(cs...)
+	case "lostanswer":
+		cs := make([]codes.Code, len(a.Codes))
+		for k, c := range a.Codes {
+			cs[k] = codes.Code(c)
+		}
+		w.Devices[a.Target].InjectLostAnswers(cs...)
 	case "crash":
 		w.S.Crash()
 		r.crashedDuring = true
@@ -353,16 +363,19 @@ func (r *Run) CheckStored(when string) error {
 		}
 		want := r.Ref.Stored[t].Flat()
 		if d := model.DiffFlat(got, want); d != "" {
-			if r.staleWriteBack(t, got, want) {
-				continue
-			}
 			return vstat.Violf("%s: stored configuration of %s differs from the fold of the accepted transactions in log order: %s; state %s", when, t, d, r.W.DescribeState())
 		}
 	}
 	return nil
 }
 
-// staleWriteBack recognises the consequence of the listed store findings
+// staleWriteBack is NO LONGER USED by CheckStored: since the applied values got
+// a map of their own (fix 0c3253d) only the proposal reconciler of a target
+// writes its committed values, so a stale snapshot can no longer reach the
+// stored configuration; keeping the explanation would hide real losses (it hid
+// seeded change C01-1). Kept for reference.
+//
+// staleWriteBack recognised the consequence of the listed store findings
 // F-config-applied-aliases-committed + F-config-failed-write-leaks-values under
 // a pre-emptive schedule: a reconciler that read the configuration before a
 // commit writes its stale snapshot of the values back (the values are
@@ -434,7 +447,13 @@ func (r *Run) CheckDevices(when string) error {
 		if skip {
 			continue
 		}
-		if d := model.DiffFlat(r.W.DeviceFlat(t), r.Ref.Device[t].Flat()); d != "" {
+		failed := map[int]bool{}
+		for _, p := range r.Proposals(t) {
+			if p.Status.Phases.Apply != nil && p.Status.Phases.Apply.State == configapi.ProposalApplyPhase_FAILED {
+				failed[int(p.TransactionIndex)] = true
+			}
+		}
+		if d := model.DiffFlat(r.W.DeviceFlat(t), r.Ref.ExpectedDevice(t, failed).Flat()); d != "" {
 			return vstat.Violf("%s: device %s (connected, reported synchronized, nothing applying) differs from the stored configuration restricted to the transactions whose apply did not fail: %s; state %s", when, t, d, r.W.DescribeState())
 		}
 	}
